@@ -29,6 +29,16 @@ def create_sym(p):
     dts = {"bin1_id": "int64", "bin2_id": "int64", "count": "int32"}
     path = scratch_file("c02.cool")
     stream = chunk_stream(cols, cuts, lambda items, k: SArr(list(items), dts[k])) if m else iter([])
+    if p.get("table"):
+        # the whole table in one piece (dict / DataFrame), rows in a solver-chosen order: create_cooler has to sort it
+        import itertools
+        from engine import sympd
+        perms = list(itertools.permutations(range(K)))
+        perm = perms[concretize(sym_int("perm", 0, len(perms) - 1))]
+        cover("table_unsorted", list(perm) != list(range(K)))
+        stream = {k: SArr([col[j] for j in perm], dts[k]) for k, col in cols.items()}
+        if p["table"] == "df":
+            stream = sympd.DataFrame(stream)
     sc.create_cooler(path, bins, stream, ordered=True, symmetric_upper=upper)
     cover("zero_chunks", m == 0)
     cover("empty_rows", or_(*[and_(*[x != k for x in b1]) for k in range(n)]) if K else True)
@@ -49,6 +59,13 @@ def create_real(p, inputs):
     dts = {"bin1_id": "int64", "bin2_id": "int64", "count": "int32"}
     path = scratch_file("c02.cool")
     stream = chunk_stream(cols, cuts, lambda items, k: np.array(list(items), dtype=dts[k])) if m else iter([])
+    if p.get("table"):
+        import itertools
+        import pandas as pd
+        perm = list(itertools.permutations(range(K)))[inputs["perm"]]
+        stream = {k: np.array([col[j] for j in perm], dtype=dts[k]) for k, col in cols.items()}
+        if p["table"] == "df":
+            stream = pd.DataFrame(stream)
     cooler.create_cooler(path, bins, stream, ordered=True, symmetric_upper=upper)
     validity_real(path)
     with h5py.File(path, "r") as g:
@@ -63,6 +80,8 @@ def _create_cases(tier):
     for layout, kind, K, m in specs:
         for upper in (True, False):
             out.append(dict(layout=list(layout), kind=kind, K=K, m=m, upper=upper))
+    out.append(dict(layout=[2], kind="fixed", K=3, m=1, upper=False, table="df"))
+    out.append(dict(layout=[2, 1], kind="fixed", K=3, m=1, upper=True, table="dict"))
     return out
 
 
@@ -177,7 +196,7 @@ options_sym, options_real = both(options_body)
 
 
 CHECKS = [
-    Check("create", _create_cases, create_sym, create_real, labels=("zero_chunks", "empty_rows"),
+    Check("create", _create_cases, create_sym, create_real, labels=("zero_chunks", "empty_rows", "table_unsorted"),
           doc="ordered create() from any sorted stream (zero chunks, empty chunks): raw store satisfies the schema predicate",
           bounds=dict(quick="<=2 chromosomes, n<=3, K<=3, m<=2 chunks (and the zero-chunk stream)", thorough="n<=4, K<=4, m<=3"),
           stubs=("E3 in-memory h5py model", "E4 pandas models on symbolic columns"), timeout=1500),
